@@ -187,10 +187,11 @@ macro_rules! vcover {
 pub(crate) use vcover;
 
 /// Property assertion with a stable label: the label is what known_findings.json keys on and what
-/// the native replay looks for in the panic message.
+/// the native replay looks for in the panic message. (A plain literal: Kani stringifies anything
+/// else.) The driver recognises harness assertions by their location under /verif/harness/.
 macro_rules! vassert {
     ($cond:expr, $label:literal) => {{
-        assert!($cond, concat!("VERIF-ASSERT[", $label, "]"));
+        assert!($cond, $label);
     }};
 }
 pub(crate) use vassert;
